@@ -6,7 +6,7 @@ from common import TREND, BASE_ASSUMPTIONS  # noqa: E402
 
 RULE = ("RollKernels2.tla (cross sums as coded vs normal-equation definitions over pairwise-complete observations, "
         "residuals explicit) and the trend family of RollKernels.tla; TLC checks NoDrift2, OutDef2, "
-        "PerfectLineZeroResidual over all pairs of series within the bound; every emitted pair is replayed into the 2 "
+        "PerfectLineZeroResidual over all pairs of series within the bound, and NoDrift2W / Step2OK on the history-free graph (RollWin2.tla: any number of additions and removals); every emitted pair is replayed into the 2 "
         "binary, 6 regression-on-x (incl. the alpha/beta/SSE triple) and 5 trend entry points; long random pair runs are "
         "validated against TraceRoll2.tla")
 
@@ -16,6 +16,9 @@ def run(ctx):
     r2 = ctx.tlc("roll2-bfs", "MCRoll2", "MCRoll2_quick.cfg" if q else "MCRoll2_thorough.cfg", workers=12 if q else 16,
                  timeout=900 if q else 7200)
     r1 = ctx.tlc("roll-bfs", "MCRoll", "MCRoll_quick.cfg", workers=12, timeout=600)
+    # history-free configuration of the cross sums: a finite cyclic graph, histories of every length
+    ctx.tlc("roll2-win", "MCRollWin2", "MCRollWin2_quick.cfg" if q else "MCRollWin2_thorough.cfg", workers=12 if q else 16,
+            timeout=900 if q else 7200, emit=False)
     binp = ctx.build("tvh-roll")
     extra = [] if q else ["--full"]
     ctx.harness("roll2", binp, ["replay-roll2", "--in", r2["emitted"]] + extra)
